@@ -202,15 +202,73 @@ func init() {
 			c, _ := genCase(r, cfg)
 			cases = append(cases, c)
 		}
+		// enumerated three-level nests: every combination of loop kinds, of the instruction pending in the middle
+		// loop (lazybreak N / break N / continue / none, before or after the inner loop) and of the instruction that
+		// ends the inner loop from inside (break M / lazybreak M / continue / none, on its first, middle or LAST
+		// iteration), N, M in 1..3 — the cases in which two pending depths meet
+		open_ := func(kind byte, v string) string {
+			if kind == 'c' {
+				return "{% for " + v + " := 0; " + v + " < 3; " + v + "++ %}"
+			}
+			return "{% for " + v + ", _" + v + " := range lst %}"
+		}
+		mids := []string{"", "{% lazybreak %}", "{% lazybreak 2 %}", "{% lazybreak 3 %}", "{% break 2 if b == 1 %}", "{% continue if b == 0 %}", "{% lazybreak 2 if b == 1 %}"}
+		inners := []string{"", "{% break if c == 1 %}", "{% break 2 if c == 1 %}", "{% break 3 if c == 1 %}", "{% lazybreak 2 if c == 1 %}", "{% lazybreak if c == 2 %}", "{% break 2 if c == 2 %}",
+			"{% lazybreak 3 if c == 0 %}", "{% continue if c == 1 %}", "{% lazybreak 2 %}{% continue %}"}
+		for _, ka := range "cr" {
+			for _, kb := range "cr" {
+				for _, kc := range "cr" {
+					for mi, mid := range mids {
+						for ii, inner := range inners {
+							for _, midFirst := range []bool{true, false} {
+								if mid == "" && !midFirst {
+									continue
+								}
+								if !r.Thorough() && (mi*7+ii*3+int(ka)+int(kb)*2+int(kc))%3 != 0 {
+									continue // a third of the grid in the quick tier
+								}
+								in := open_(byte(kc), "c") + "c{%= c %}" + inner + "." + "{% endfor %}"
+								body := mid + in + "x"
+								if !midFirst {
+									body = in + mid + "x"
+								}
+								src := open_(byte(ka), "a") + "[a{%= a %}" + open_(byte(kb), "b") + "(b{%= b %}" + body + ")" + "{% endfor %}]" + "{% endfor %}!"
+								c := &RCase{Tpls: []TplDef{{Key: "main", Src: src, KeepFmt: true}}, Meta: map[string]any{"nest": string(ka) + string(kb) + string(kc), "mid": mid, "inner": inner}}
+								c.Ops = []SOp{{Kind: "strs", Name: "lst", Val: []string{"p", "q", "r"}}, {Kind: "render", Key: "main"}}
+								cases = append(cases, c)
+								r.Dist["enumerated-nest"]++
+							}
+						}
+					}
+				}
+			}
+		}
 		runSessions(r, cases, outputDiffers)
 	}
 	props["C16"] = func(r *Run) {
 		r.Rule = "random templates with include (both spellings, name lists with missing entries, nested one level, inside loops/conditions/regions) and exit at arbitrary positions; Go output vs Lean interpreter model"
-		cfg := GenCfg{MaxDepth: 3, MaxNodes: 16, Loops: true, Switch: true, Include: true, Exit: true, Region: true}
+		cfg := GenCfg{MaxDepth: 3, MaxNodes: 16, Loops: true, Switch: true, Include: true, Exit: true, Region: true, Ctl: true, LazyBreak: true, BreakN: true}
 		var cases []*RCase
 		for i := 0; i < r.N(5000, 150000); i++ {
 			c, _ := genCase(r, cfg)
 			cases = append(cases, c)
+		}
+		// enumerated: exit at every kind of place inside an INCLUDED template (top level, under a counter / range
+		// loop, under if, in a for-else, after lazybreak), the include tag itself at every kind of place in the host
+		// (top level, in a counter / range loop, in a region, in an if inside a loop), followed by more host output
+		subs := []string{"s{% exit %}never", "s{% for j := 0; j < 2; j++ %}{%= j %}{% exit %}x{% endfor %}never", "s{% for _, e := range lst %}{%= e %}{% exit %}{% endfor %}never",
+			"s{% if si == 1 %}{% exit %}{% endif %}never", "s{% for j := 0; j < 0; j++ %}{% else %}E{% exit %}{% endfor %}never", "s{% for _, e := range lst %}{% lazybreak %}{%= e %}{% exit %}n{% endfor %}never",
+			"s{% for j := 0; j < 2; j++ %}{% if j == 1 %}{% exit %}{% endif %}{%= j %}{% endfor %}t", "s"}
+		hosts := []string{"a<{% include sub %}>tail", "a{% for i := 0; i < 2; i++ %}<{% include sub %}>{% endfor %}tail", "a{% for _, h := range lst %}<{% include sub %}>{%= h %}{% endfor %}tail",
+			"a{% jsonquote %}\"{% include sub %}\"{% endjsonquote %}tail", "a{% for i := 0; i < 2; i++ %}{% if i == 0 %}<{% include sub %}>{% endif %}{%= i %}{% endfor %}tail{%= si %}",
+			"a{% for i := 0; i < 2; i++ %}<{% include sub %}>{% endfor %}{% for k := 0; k < 2; k++ %}{%= k %}{% endfor %}tail"}
+		for _, sub := range subs {
+			for _, host := range hosts {
+				c := &RCase{Tpls: []TplDef{{Key: "sub", Src: sub, KeepFmt: true}, {Key: "main", Src: host, KeepFmt: true}}, Meta: map[string]any{"sub": sub, "host": host}}
+				c.Ops = []SOp{{Kind: "strs", Name: "lst", Val: []string{"p", "q"}}, {Kind: "static", Name: "si", Val: int64(1)}, {Kind: "render", Key: "main"}, {Kind: "render", Key: "main"}}
+				cases = append(cases, c)
+				r.Dist["enumerated-exit-in-include"]++
+			}
 		}
 		runSessions(r, cases, outputDiffers)
 	}
